@@ -11,7 +11,7 @@ import UnicLocale.Gen.Tables
 import UnicLocale.Lemmas.MaxMin
 
 namespace UL.C08Witness
-open UL UL.MaxMin
+open UL UL.Mm UL.Mm.MaxMin
 
 def x : LangId := { script := some hant, region := some de }
 def y : LangId := { language := some zh, script := some hant, region := some de }
